@@ -59,6 +59,11 @@ package main
 // in-process CallStep error must be contained in the Execute's error (the text travels inside an
 // ATP error message; a text a validating CBOR decoder refuses never arrives).
 //
+// The `stepid` stream (every run): Executes whose step ID is a declared step ID padded with white
+// space of several kinds ("bulk ", " bulk", "bulk\n", "opt\r\n", tab, no-break and em space), with
+// an input the step accepts, next to calls with the exact ID; v3 and v1. A step ID is an exact key:
+// in-process CallStep answers "Invalid step called", so Execute must return an error too.
+//
 // A finding carries the whole session (plugin, calls with inputs, rounds, delays, transport, seed) as
 // its detail; `harness atpsession -replay <finding or session json>` re-runs that session.
 //
@@ -608,6 +613,32 @@ func atpxPatternSpec(idx int, rnd *rand.Rand, seed int64) *atpxSpec {
 		}
 		sp.Calls = append(sp.Calls, atpxCall{RunID: run, Step: "pat",
 			V: hx.StrAny([2]*hx.Val{hx.Str("uid"), hx.Str(run)}, [2]*hx.Val{hx.Str("word"), hx.Str(word)})})
+	}
+	return sp
+}
+
+// atpxStepIDSpec: declared step IDs padded with white space.
+func atpxStepIDSpec(idx int, rnd *rand.Rand, seed int64) *atpxSpec {
+	sp := &atpxSpec{Idx: idx, Stream: "stepid", Bulk: true, Pattern: []string{"serial", "overlap"}[rnd.Intn(2)],
+		Transport: []string{"pipe", "chunked", "split"}[rnd.Intn(3)], Seed: seed, V1: idx%4 == 0}
+	pads := [][2]string{{"", " "}, {" ", ""}, {"", "\n"}, {"", "\r\n"}, {"\t", ""}, {"", "\u00a0"}, {"", "\u2003"}, {" ", " "}, {"", "  "}, {"\n", ""}}
+	k := 3 + rnd.Intn(5)
+	for c := 0; c < k; c++ {
+		run := fmt.Sprintf("i%d-%d", idx, c)
+		base := []string{"bulk", "opt", "pat", "slow"}[rnd.Intn(4)]
+		step := base
+		if c == 0 || rnd.Intn(3) > 0 {
+			p := pads[rnd.Intn(len(pads))]
+			step = p[0] + base + p[1]
+		}
+		var v *hx.Val
+		switch base {
+		case "pat":
+			v = hx.StrAny([2]*hx.Val{hx.Str("uid"), hx.Str(run)}, [2]*hx.Val{hx.Str("word"), hx.Str("accepted")})
+		default:
+			v = atpxBulkInput(run, rnd.Intn(600), 0)
+		}
+		sp.Calls = append(sp.Calls, atpxCall{RunID: run, Step: step, V: v})
 	}
 	return sp
 }
@@ -1344,9 +1375,12 @@ func atpxCmd(a Args) {
 	for i := 0; i < nBlank; i++ {
 		jobs = append(jobs, atpxBlankSpec(base+nRaw+i, brnd, a.Seed*7000033+int64(i)))
 	}
-	nPat := 24
+	nPat, nStepID := 24, 20
 	if thorough {
-		nPat = 300
+		nPat, nStepID = 300, 200
+	}
+	for i := 0; i < nStepID; i++ {
+		jobs = append(jobs, atpxStepIDSpec(base+nRaw+nBlank+nPat+i, brnd, a.Seed*9000067+int64(i)))
 	}
 	for i := 0; i < nPat; i++ {
 		jobs = append(jobs, atpxPatternSpec(base+nRaw+nBlank+i, brnd, a.Seed*8000051+int64(i)))
@@ -1370,7 +1404,7 @@ func atpxCmd(a Args) {
 			if j.Stream == "bulk" {
 				timeout = 5 * time.Second
 			}
-			if j.Stream == "dup" || j.Stream == "signal" || j.Stream == "blank" || j.Stream == "rawinput" || j.Stream == "pattern" {
+			if j.Stream == "dup" || j.Stream == "signal" || j.Stream == "blank" || j.Stream == "rawinput" || j.Stream == "pattern" || j.Stream == "stepid" {
 				timeout = 4 * time.Second
 			}
 			results[ji] = atpxRunSession(j, timeout)
@@ -1396,7 +1430,7 @@ func atpxCmd(a Args) {
 		if j.Stream == "bulk" {
 			s.stats["bulk:executes"] += r.calls
 			s.stats["bulk:rounds"] += len(j.Rounds)
-		} else if j.Stream == "rawinput" || j.Stream == "blank" || j.Stream == "pattern" {
+		} else if j.Stream == "rawinput" || j.Stream == "blank" || j.Stream == "pattern" || j.Stream == "stepid" {
 			s.stats[j.Stream+":executes"] += r.calls
 		} else if j.Stream == "dup" {
 			s.stats["dup:executes"] += r.calls
